@@ -142,7 +142,7 @@ def apply_op(r, op):
         return "trim_large", False
     if kind == "tf":
         row = r.rows[0] if op[1] == "first" else r.rows[-1]
-        minus = row.strand == -1
+        minus = row.strand != 1
         must(r.trim_fragment, row, bool(op[2]), bool(op[3]), what=f"trim_fragment({op[1]})")
         return "trim_fragment", minus
     raise ValueError(kind)
@@ -186,7 +186,7 @@ op_strategy = st.one_of(
 
 @st.composite
 def cases(draw):
-    rows = draw(scaffold_rows(max_rows=8))
+    rows = draw(scaffold_rows(max_rows=8, strands=(1, -1, 1, -1, 0)))
     if not any(r[0] == "F" for r in rows):
         rows.insert(draw(st.integers(0, len(rows))), ["F", "cx", 3, 3 + draw(st.integers(0, 30)), draw(st.sampled_from([1, -1]))])
     total = ref.rows_len(rows)
